@@ -89,7 +89,7 @@ func (it *Interp) Step(t []string, op string) string {
 			return "bad-op"
 		}
 		ms, err := strconv.ParseUint(t[1], 10, 64)
-		if err != nil {
+		if err != nil || ms == 0 {
 			return "bad-op"
 		}
 		if !it.started {
